@@ -33,6 +33,7 @@ _COMMON = [
 GROUP = {
     'name': 'Units',
     'imports': ['Cellml.Tie.UnitsView'],
+    'header': 'open Cellml.Tie.PUnits',
     'patterns': _COMMON,
     'functions': [
         {'file': 'cellmlmanip/units.py', 'func': 'UnitStore._prefix_name', 'lean_name': 'prefixName',
